@@ -1,6 +1,5 @@
 from __future__ import annotations
 
-import sys
 from collections.abc import Sequence
 from typing import Literal
 
@@ -116,10 +115,11 @@ def port_to_line_data(
            [1, 1, 1, 1, 1, 1, 1, 0]], dtype=uint8)
     """
     port_size = port_data.dtype.itemsize * 8
-    # Convert to big-endian byte order to ensure MSB comes first when bitorder='big'
-    # For multi-byte types on little-endian systems, we need to byteswap
-    if bitorder != sys.byteorder and port_data.dtype.itemsize > 1:
-        port_data = port_data.byteswap()
+    # Lay the samples out contiguously with the most significant byte first when bitorder='big' and
+    # the least significant byte first when bitorder='little', whatever the byte order or strides
+    # of the input array, so that unpackbits yields the bits of each sample in order.
+    byteorder = ">" if bitorder == "big" else "<"
+    port_data = np.ascontiguousarray(port_data, dtype=port_data.dtype.newbyteorder(byteorder))
 
     line_data_1d = np.unpackbits(port_data.view(np.uint8), bitorder=bitorder)
     line_data_2d = line_data_1d.reshape(len(port_data), port_size)
